@@ -337,7 +337,7 @@ pub fn miri_slice(r: &mut Report, seed: u64, n: usize, shard: usize) -> usize {
 
 pub fn run(ctx: &Ctx) -> i32 {
     let mut report = ctx.report("C17", "exploration");
-    report.rule = "integers: u8/u16 exhaustively, u32/u64/usize at every power-of-ten and power-of-two boundary (+-1) plus random values, each under Default(LE)/BigEndian/Bcd, encode compared with an independent formula and decode(encode(v)) with (v, nothing left); all 65536 tags under BigEndian and every representable tag under Default, every one-byte tag (and a slice of the two-byte tags) followed by every possible next byte; BCD *inputs*: every digit string of 0..3 bytes with and without a trailing F pad exhaustively, sampled to 11 bytes, for all five integer widths (value, or error when the digits exceed the type); CP437: every byte string of length 1..2 and all 256 bytes in each position of length-3 strings (canonical = no trailing NUL), random strings to 999 bytes; hex strings to 64 bytes; receipt numbers 0..9999 and FFFF. Non-trivial = inside the claimed domain; distinct = distinct (encoding, type, value/input).".into();
+    report.rule = "integers: u8/u16 exhaustively, u32/u64/usize at every power-of-ten and power-of-two boundary (+-1) plus random values, each under Default(LE)/BigEndian/Bcd, encode compared with an independent formula and decode(encode(v)) with (v, nothing left); all 65536 tags under BigEndian and every representable tag under Default, every one-byte tag (and a slice of the two-byte tags) followed by every possible next byte; BCD *inputs*: every digit string of 0..3 bytes with and without a trailing F pad exhaustively, sampled to 11 bytes, for all five integer widths (value, or error when the digits exceed the type); CP437: every byte string of length 1..2 and all 256 bytes in each position of length-3 strings (canonical = no trailing NUL), random strings to 999 bytes; hex strings to 64 bytes; receipt numbers 0..9999 and FFFF; and the codecs interleaved (one value through every integer width, the tag, text and hex codecs back to back in rotating order). Non-trivial = inside the claimed domain; distinct = distinct (encoding, type, value/input).".into();
     report.exhaustive = Some(false);
     report.assumptions = vec![
         "independent encodings in refcodec::codec (bcd_bytes, tag_bytes, CP437 table generated from Python's cp437 codec)".into(),
@@ -476,6 +476,35 @@ pub fn run(ctx: &Ctx) -> i32 {
             check_text(r, &b, true);
             let n = rng.below(65) as usize;
             check_hex(r, &rng.bytes(n));
+        }
+        // the encodings interleaved on one thread: the same numeric value through every width, the tag decoder, the
+        // text and hex codecs back to back, in rotating order (nothing one codec leaves behind may reach the next)
+        {
+            let mut vals: Vec<u128> = (0..=300u128).collect();
+            vals.extend(boundary_values(64));
+            for (k, v) in vals.iter().enumerate() {
+                if k % threads != shard {
+                    continue;
+                }
+                let v = *v;
+                let digits = v.to_string().into_bytes();
+                for rot in 0..9usize {
+                    for step in 0..9usize {
+                        match (step + rot * 4) % 9 {
+                            0 => check_u8(r, v as u8, true),
+                            1 => check_u16(r, v as u16, true),
+                            2 => check_u32(r, v as u32, true),
+                            3 => check_u64(r, v as u64, true),
+                            4 => check_usize(r, v as usize, true),
+                            5 => check_tag(r, v as u16),
+                            6 => check_text(r, &digits, true),
+                            7 => check_hex(r, &digits),
+                            _ => check_receipt(r, (v % 10000) as usize),
+                        }
+                        r.count("interleaved_codec_calls", 1);
+                    }
+                }
+            }
         }
         if shard == 0 {
             for n in 0..=64 {
